@@ -67,6 +67,110 @@ Proof.
 Qed.
 Print Assumptions c15_units_wrapped.
 
+(* ================= the error-return half: "... or REPORTS FAILURE at any point" ================= *)
+
+(* ---- types/utils.go ApplyFuncIfNoError, read statement by statement by the translator
+   (apply_func_shape: defer-recover, CacheContext, f on the cache context, write-back only under
+   err == nil, return err), interpreted by Hooks.run_apply, IS Lib/Atomic.apply - for every unit of
+   work and every store: the cache is written exactly when f returns normally; an error or a panic
+   of f leaves the caller's store as it was, and the panic does not leave the function ---- *)
+Theorem c15_apply_func_is_atomic :
+  forall (store : Type) (f : unit_of_work store) (s : store),
+  run_apply apply_func_shape f s = AppReturned (apply f s).
+Proof. intros. apply apply_func_shape_atomic. Qed.
+Print Assumptions c15_apply_func_is_atomic.
+
+(* the check is load-bearing: three one-line variants of ApplyFuncIfNoError, each read into the same
+   little language, are NOT atomic - writing the cache back before looking at the error, running f on
+   the caller's context, and leaving out the deferred recover *)
+Theorem c15_apply_variants_refuted :
+  (exists (f : unit_of_work Z) s, run_apply [ADeferRecover; ACacheCtx; ARunOnCache; AWrite; AIfErrNil [] [ALog]; AReturnErr] f s
+                                  <> AppReturned (apply f s)) /\
+  (exists (f : unit_of_work Z) s, run_apply [ADeferRecover; ARunOnParent; AIfErrNil [] [ALog]; AReturnErr] f s <> AppReturned (apply f s)) /\
+  (exists (f : unit_of_work Z) s, run_apply [ACacheCtx; ARunOnCache; AIfErrNil [AWrite] [ALog]; AReturnErr] f s <> AppReturned (apply f s)).
+Proof.
+  split; [|split].
+  - exists (fun s => RunErr (s + 100) 1), 0. rewrite apply_write_before_check_commits. discriminate.
+  - exists (fun s => RunErr (s + 100) 1), 0. rewrite apply_on_parent_commits. discriminate.
+  - exists (fun s => RunPanic (s + 100)), 0. rewrite apply_without_recover_halts. discriminate.
+Qed.
+Print Assumptions c15_apply_variants_refuted.
+
+(* ---- a closure that hands the call's error on: the statements before the call run and write
+   ([pre], any list of hooks), the call itself writes [p] and then reports failure: after the
+   ApplyFuncIfNoError the store is the one before it - for every position of the call in the closure,
+   every behaviour of the other calls, every partial store ---- *)
+Theorem c15_error_after_writes_noop :
+  forall (store : Type) call_sem risk_sem loop_len (pre post : list hook) (c : hook) idx (s s1 p : store) code,
+  exec call_sem risk_sem loop_len (Seq pre) idx s = RunOk s1 ->
+  exec call_sem risk_sem loop_len c idx s1 = RunErr p code ->
+  exec call_sem risk_sem loop_len (Wrapped (Seq (pre ++ OnErr ReturnsCallErr c :: post))) idx s = RunOk s.
+Proof.
+  intros store cs rs ll pre post c idx s s1 p code H1 H2.
+  apply (returns_call_err_noop store cs rs ll pre post c idx s s1 p code); [|exact H2].
+  rewrite <- exec_Seq. exact H1.
+Qed.
+Print Assumptions c15_error_after_writes_noop.
+
+(* ---- in general, for EVERY closure body all of whose [OnErr] hand the error on (nested loops,
+   sequences, inner wraps, any number of calls): a store on which some call has reported failure is
+   never committed.  [failed] is any observation of the store that normal returns of calls leave
+   alone (a ghost "a failure was reported" flag); failing calls may leave any partial store ---- *)
+Theorem c15_no_failure_committed :
+  forall (store : Type) call_sem risk_sem loop_len (failed : store -> bool),
+  (forall n idx s s', call_sem n idx s = RunOk s' -> failed s' = failed s) ->
+  forall (body : hook) idx (s : store), hands_on_errors body = true -> failed s = false ->
+  exists s', exec call_sem risk_sem loop_len (Wrapped body) idx s = RunOk s' /\ failed s' = false.
+Proof. intros store cs rs ll failed Hk body idx s Hb Hs. exact (no_failure_committed store cs rs ll failed Hk body idx s Hb Hs). Qed.
+Print Assumptions c15_no_failure_committed.
+
+(* ---- the check is load-bearing: the SAME closure with the error dropped (OnErr SwallowsErr: `_ =`,
+   log only, `return nil`, `continue`) commits everything - the writes before the call, the call's
+   partial writes and whatever the rest of the closure does on top; and one such closure suffices
+   to commit a store on which a failure was reported ---- *)
+Theorem c15_swallowed_error_commits_refuted :
+  (forall (store : Type) call_sem risk_sem loop_len (pre post : list hook) (c : hook) idx (s s1 p s2 : store) code,
+     exec call_sem risk_sem loop_len (Seq pre) idx s = RunOk s1 ->
+     exec call_sem risk_sem loop_len c idx s1 = RunErr p code ->
+     exec call_sem risk_sem loop_len (Seq post) idx p = RunOk s2 ->
+     exec call_sem risk_sem loop_len (Wrapped (Seq (pre ++ OnErr SwallowsErr c :: post))) idx s = RunOk s2) /\
+  (exists (call_sem : string -> list nat -> unit_of_work (Z * bool)) body,
+     (forall n idx s s', call_sem n idx s = RunOk s' -> snd s' = snd s) /\
+     hands_on_errors body = false /\
+     exec call_sem (fun _ _ _ _ => false) (fun _ _ _ => 0%nat) (Wrapped body) [] (0, false) = RunOk (100, true)).
+Proof.
+  split.
+  - intros store cs rs ll pre post c idx s s1 p s2 code H1 H2 H3.
+    apply (swallows_err_commits store cs rs ll pre post c idx s s1 p code s2); [|exact H2|].
+    + rewrite <- exec_Seq. exact H1.
+    + rewrite <- exec_Seq. exact H3.
+  - exists (fun _ _ s => RunErr (fst s + 100, true) 1),
+           (Seq [OnErr SwallowsErr (Call "liquidationsV2.LiquidateIndividualVault" Writes)]).
+    split; [intros; discriminate|]. split; reflexivity.
+Qed.
+Print Assumptions c15_swallowed_error_commits_refuted.
+
+(* ---- the table: in EVERY unit the property names, every call of the unit hands its error on to
+   the result of the ApplyFuncIfNoError closure it stands in ---- *)
+Theorem c15_units_propagate_errors :
+  forall u, In u hook_units -> unit_propagates_error hook_table u = true.
+Proof.
+  intros u Hin. pose proof units_propagate_table as H. rewrite forallb_forall in H. exact (H u Hin).
+Qed.
+Print Assumptions c15_units_propagate_errors.
+
+(* ... and not only the calls the units name: in EVERY hook, every leaf under an ApplyFuncIfNoError
+   that is not a plain read hands its error on to the nearest wrap above it (no closure anywhere in
+   the 13 hooks drops the error of a state-changing call) *)
+Theorem c15_wrapped_writes_propagate :
+  forall l, In l (all_root_leaves hook_table) -> under_wrap (lf_path l) = true -> is_read_leaf l = false ->
+  err_reaches_wrap (lf_path l) = true.
+Proof.
+  intros l Hl Hw Hr. pose proof wrapped_leaves_propagate_table as H. rewrite forallb_forall in H.
+  specialize (H l Hl). unfold wrapped_leaf_propagates in H. rewrite Hw, Hr in H. exact H.
+Qed.
+Print Assumptions c15_wrapped_writes_propagate.
+
 (* the V2 borrow unit (one LiquidateIndividualBorrow) used to be the class kf_C15_1: the loop of
    LiquidateBorrows called it WITHOUT a wrap and returned at the first error.  Repaired by fix
    C09-F3 / C15-F1 (each borrow inside ApplyFuncIfNoError): on the regenerated table the unit is
@@ -290,3 +394,89 @@ Example c15_wiring :
     "liquidity.AppModule.BeginBlock"; "liquidity.AppModule.EndBlock"; "market.AppModule.BeginBlock";
     "rewards.AppModule.BeginBlock"; "rewards.AppModule.EndBlock"]%string.
 Proof. vm_compute. reflexivity. Qed.
+
+(* ---- the error-return half on REAL regenerated rows ---- *)
+(* one vault of three reports failure after it has written (the fixed-price vault whose debt asset
+   has no price: collateral sent, locked vault stored, then the auction cannot start): the closure of
+   LiquidateVaults hands the error on, the writes are dropped, vaults 0 and 2 are liquidated *)
+Example c15_v2_vault_error_dropped :
+  run_hook (fun n idx (s : Z) =>
+              if String.eqb n "liquidationsV2.LiquidateIndividualVault"
+              then match idx with [1%nat] => RunErr (s + 100) 1 | [j] => RunOk (s + Z.of_nat j + 1) | _ => RunOk s end
+              else RunOk s)
+           (fun _ _ _ _ => false) (fun _ _ _ => 3%nat)
+           (resolved hook_table "liquidationsV2.LiquidateVaults") 0
+  = Returned 4.
+Proof. vm_compute. reflexivity. Qed.
+
+(* the same loop with the closure of seeded change C15-1 (the error is logged, the closure returns
+   nil): the failing vault's partial writes are committed *)
+Example c15_v2_vault_error_swallowed_commits :
+  run_hook (fun n idx (s : Z) => match idx with [1%nat] => RunErr (s + 100) 1 | [j] => RunOk (s + Z.of_nat j + 1) | _ => RunOk s end)
+           (fun _ _ _ _ => false) (fun _ _ _ => 3%nat)
+           (ForEach "newVaults" (Seq [Wrapped (Seq [OnErr SwallowsErr (Call "liquidationsV2.LiquidateIndividualVault" Writes)])])) 0
+  = Returned 104 /\
+  unit_propagates_error
+    [("liquidationsV2.BeginBlocker",
+      ForEach "newVaults" (Seq [Wrapped (Seq [OnErr SwallowsErr (Call "liquidationsV2.LiquidateIndividualVault" Writes)])]))]
+    (mkUnit "v2.vault" "liquidationsV2.BeginBlocker" "newVaults" ["liquidationsV2.LiquidateIndividualVault"]) = false.
+Proof. vm_compute. split; reflexivity. Qed.
+
+(* regression of C15-F4 on the REAL regenerated row of rewards.BeginBlocker: the locker distribution
+   reports failure after it has paid out (+100); it is rolled back as a whole and the epoch update
+   (+1) and the four other distributions (+2 +4 +8 +16) are kept.  Before the fix the row was one
+   closure with OnErr SwallowsErr around every distribution and the result 131. *)
+Example c15_rewards_step_fails_late :
+  run_hook (fun n idx (s : Z) =>
+              if String.eqb n "rewards.TriggerAndUpdateEpochInfos" then RunOk (s + 1)
+              else if String.eqb n "rewards.DistributeExtRewardLocker" then RunErr (s + 100) 1
+              else if String.eqb n "rewards.DistributeExtRewardVault" then RunOk (s + 2)
+              else if String.eqb n "rewards.DistributeExtRewardLend" then RunOk (s + 4)
+              else if String.eqb n "rewards.CombinePSMUserPositions" then RunOk (s + 8)
+              else if String.eqb n "rewards.DistributeExtRewardStableVault" then RunOk (s + 16)
+              else RunOk s)
+           (fun _ _ _ _ => false) (fun _ _ _ => 0%nat)
+           (resolved hook_table "rewards.BeginBlocker") 0
+  = Returned 31.
+Proof. vm_compute. reflexivity. Qed.
+
+(* regression of C15-F5 on the REAL regenerated row of esm.BeginBlocker, two apps: the vault
+   redemption step of app 0 reports failure after it has moved the first vaults (+100): it is rolled
+   back as a whole, the other steps of app 0 (+1 +4 +8 +16) and all steps of app 1 (+31) are kept.
+   Before the fix: one closure, OnErr SwallowsErr around every step, result 160. *)
+Example c15_esm_step_fails_late :
+  run_hook (fun n idx (s : Z) =>
+              if String.eqb n "esm.SnapshotOfPrices" then RunOk (s + 1)
+              else if String.eqb n "esm.SetUpCollateralRedemptionForVault"
+                   then match idx with [0%nat] => RunErr (s + 100) 1 | _ => RunOk (s + 2) end
+              else if String.eqb n "esm.SetUpCollateralRedemptionForStableVault" then RunOk (s + 4)
+              else if String.eqb n "esm.SetUpDebtRedemptionForCollector" then RunOk (s + 8)
+              else if String.eqb n "esm.SetUpShareCalculation" then RunOk (s + 16)
+              else RunOk s)
+           (fun _ _ _ _ => false) (fun _ _ _ => 2%nat)
+           (resolved hook_table "esm.BeginBlocker") 0
+  = Returned 60.
+Proof. vm_compute. reflexivity. Qed.
+
+(* every closure body of the regenerated table hands on every error it reads (no SwallowsErr /
+   UnrecognisedErr frame anywhere under a wrap of the V2 sweeps): the general theorem
+   c15_no_failure_committed applies to the real rows *)
+Example c15_real_rows_hand_on_errors :
+  hands_on_errors (resolved hook_table "liquidationsV2.LiquidateVaults") = true /\
+  hands_on_errors (resolved hook_table "liquidationsV2.LiquidateBorrows") = true /\
+  hands_on_errors (resolved hook_table "liquidationsV2.LiquidateForSurplusAndDebt") = true /\
+  hands_on_errors (resolved hook_table "auctionsV2.AuctionIterator") = true /\
+  hands_on_errors (resolved hook_table "auctionsV2.LimitOrderBid") = true /\
+  hands_on_errors (resolved hook_table "rewards.BeginBlocker") = true /\
+  hands_on_errors (resolved hook_table "esm.BeginBlocker") = true /\
+  hands_on_errors (resolved hook_table "lend.BeginBlocker") = true /\
+  hands_on_errors (resolved hook_table "liquidity.EndBlocker") = true.
+Proof. vm_compute. repeat split; reflexivity. Qed.
+
+(* ApplyFuncIfNoError as read from the source, run on concrete units of work *)
+Example c15_apply_shape_runs :
+  run_apply apply_func_shape (fun s : Z => RunErr (s + 100) 1) 7 = AppReturned 7 /\
+  run_apply apply_func_shape (fun s : Z => RunPanic (s + 100)) 7 = AppReturned 7 /\
+  run_apply apply_func_shape (fun s : Z => RunOk (s + 100)) 7 = AppReturned 107 /\
+  table_says_apply_atomic = true.
+Proof. vm_compute. repeat split; reflexivity. Qed.
